@@ -26,7 +26,7 @@ ASSUMPTIONS = [
     'modulo the field width of the layout); angles lie in [0, 360); node/leaf bounds are integral except in v25 '
     '(float fields); cubemap origins and prop tints are integral; fixed-size byte arrays have their size '
     '(Face.light_styles 4, VisLeaf._ambient 24, zero when the layout has no such field)',
-    'contents/surface flags use bits 0..30; static-prop flags only the bits the prop version stores; fields a version '
+    'contents/surface flags are 32-bit words; static-prop flags only the bits the prop version stores; fields a version '
     'does not store are left out of the comparison (StaticProp docstring), uniform scaling compares as Vec(s, s, s)',
     'faces: every split face has an original face and a texinfo (the reader resolves -1 to the last table entry), '
     'shares texinfo and Hammer id with it and has an int Hammer id (or all faces have None, as the reader reports an '
@@ -172,7 +172,7 @@ U8 = st.integers(0, 255)
 U16 = G.biased_int(0, 0xFFFF, [0, 1, 2, 255, 256, 0x7FFF, 0x8000, 0xFFFF])
 U32 = G.biased_int(0, 0xFFFFFFFF, [0, 1, 0xFFFF, 0x10000, 0x7FFFFFFF, 0x80000000, 0xFFFFFFFF])
 I32 = G.biased_int(-0x80000000, 0x7FFFFFFF, [0, 1, -1, 0x7FFF, -0x8000, 0x7FFFFFFF, -0x80000000])
-FLAGS31 = G.biased_int(0, 0x7FFFFFFF, [0, 1, 0x4000, 0x40000000, 0x7FFFFFFF])
+FLAGS31 = G.biased_int(0, 0xFFFFFFFF, [0, 1, 0x4000, 0x40000000, 0x7FFFFFFF, 0x80000000, 0xFFFFFFFF])   # full 32-bit flag words
 SMALL = st.integers(0, 30)
 VEC = st.tuples(F, F, F).map(list)
 IBOUND = G.biased_int(-0x8000, 0x7FFF, [0, 1, -1, 0x7FFF, -0x8000])
@@ -883,22 +883,35 @@ def _prop_dropped(ver: str) -> set:
 def strat_props(tier):
     def per_version(ver):
         layouts = [n for n in G.MAIN_LAYOUTS if ver in G.sprp_versions_for(n)]
-        return st.fixed_dictionaries({
-            'layout': st.sampled_from(layouts), 'lzma': LZ, 'ver': st.just(ver), 'props': st.lists(PROP, max_size=4),
-        })
+
+        def per_layout(layout):
+            return st.fixed_dictionaries({
+                'layout': st.just(layout), 'lzma': LZ, 'ver': st.just(ver), 'props': st.lists(PROP, max_size=4),
+                # 'match': the file already has this version; 'switch': it has another one and static_prop_version is
+                # changed before saving; 'unparsed': props are assigned without reading the lump or choosing a version
+                'mode': st.sampled_from(['match', 'match', 'switch', 'unparsed']),
+                'base_ver': st.sampled_from(G.sprp_versions_for(layout)),
+            })
+        return st.sampled_from(layouts).flatmap(per_layout)
     return st.sampled_from(sorted(G.SPRP_VERSIONS)).flatmap(per_version)
 
 
 def execute_props(desc, ctx):
     from srctools.bsp import StaticProp, StaticPropFlags, StaticPropVersion
     from srctools.math import Vec, Angle
+    mode = desc.get('mode', 'match')
     ver = desc['ver']
-    with Case(desc, ctx, [], sprp_ver=ver, gl=['sprp']) as c:
+    base_ver = ver if mode == 'match' else desc['base_ver']
+    if mode == 'unparsed':
+        ver = 'V5'           # documented default when the version is unknown
+    with Case(desc, ctx, [], sprp_ver=base_ver, gl=['sprp']) as c:
         bsp = c.bsp
         ctx.label('sprp:' + ver)
+        ctx.label('props_mode:' + mode)
         leafs = list(bsp.visleafs)
-        list(bsp.props)                                   # parse the (empty) lump first, then choose the version
-        bsp.static_prop_version = StaticPropVersion[ver]
+        if mode != 'unparsed':
+            list(bsp.props)                               # parse the (empty) lump first, then choose the version
+            bsp.static_prop_version = StaticPropVersion[ver]
         mask = G.sprp_flag_mask(ver)
         uniform = ver != 'V_CHAOS_V13'
         value = []
@@ -928,14 +941,17 @@ def execute_props(desc, ctx):
         rename = {('StaticProp', 'scaling'): scale3}
         want = G.canon([leafs, value], drop=drop, rename=rename)
         bsp.props = value
+        facts = {'ver': ver, 'mode': mode, 'same_number': G.SPRP_VERSIONS[ver][0] == G.SPRP_VERSIONS[base_ver][0]}
         b2 = c.reread()
-        c.ctx.check(b2.game_lumps[b'sprp'].version == G.SPRP_VERSIONS[ver][0], 'props_lump_version',
-                    f'sprp version {b2.game_lumps[b"sprp"].version}')
+        if not c.ctx.check(b2.game_lumps[b'sprp'].version == G.SPRP_VERSIONS[ver][0], 'props_lump_version',
+                           f'{c.layout} mode={mode}: props written as {ver} (file had {base_ver}) but the sprp game lump '
+                           f'header says version {b2.game_lumps[b"sprp"].version}', **facts):
+            return
         got = G.canon([list(b2.visleafs), list(b2.props)], drop=drop, rename=rename)
         if value:
             c.ctx.check(b2.static_prop_version.name == ver, 'props_version_detected',
-                        f'{c.layout}: wrote {ver}, re-read detects {b2.static_prop_version.name}', ver=ver)
-        c.expect_equal('roundtrip:props', want, got, ver=ver)
+                        f'{c.layout}: wrote {ver}, re-read detects {b2.static_prop_version.name}', **facts)
+        c.expect_equal('roundtrip:props', want, got, **facts)
 
 
 # ----------------------------------------------------------------------------------------------------------------
@@ -1306,7 +1322,7 @@ SUBCHECKS = [
     S('bmodels', execute_bmodels, strat_bmodels, 400, 10000, must=('shared_model', 'phys_solids', 'model_faces:tail')),
     S('cubemaps', execute_cubemaps, strat_cubemaps, 200, 4000),
     S('overlays', execute_overlays, strat_overlays, 300, 6000, must=('faces64',)),
-    S('props', execute_props, strat_props, 800, 16000, must=tuple('sprp:' + v for v in G.SPRP_VERSIONS)),
+    S('props', execute_props, strat_props, 800, 16000, must=tuple('sprp:' + v for v in G.SPRP_VERSIONS) + ('props_mode:match', 'props_mode:switch', 'props_mode:unparsed')),
     S('detail', execute_detail, strat_detail, 400, 8000, must=('detail:model', 'detail:sprite', 'detail:shape',
                                                                'detail:cross', 'shared_sprite')),
     S('pakfile', execute_pakfile, strat_pakfile, 100, 2000, floor=5, must=('pak:new', 'pak:append')),
